@@ -860,6 +860,10 @@ func (c *Conn) ReadBatchWith(cfg ReadBatchConfig) *Batch {
 	if errors.Is(err, errShortRead) {
 		err = checkTimeoutErr(adjustedDeadline)
 	}
+	// When the broker reported an error the rest of the response (message set
+	// size, message set) has not been read yet; it must be skipped since the
+	// connection is kept open after kafka errors.
+	remain, err = discardOnKafkaError(&c.rbuf, remain, err)
 
 	var msgs *messageSetReader
 	if err == nil {
@@ -1215,7 +1219,7 @@ func (c *Conn) writeCompressedMessages(codec CompressionCodec, msgs ...Message) 
 			}
 		},
 		func(deadline time.Time, size int) error {
-			return expectZeroSize(readArrayWith(&c.rbuf, size, func(r *bufio.Reader, size int) (int, error) {
+			size, err := readArrayWith(&c.rbuf, size, func(r *bufio.Reader, size int) (int, error) {
 				// Skip the topic, we've produced the message to only one topic,
 				// no need to waste resources loading it in memory.
 				size, err := discardString(r, size)
@@ -1261,7 +1265,11 @@ func (c *Conn) writeCompressedMessages(codec CompressionCodec, msgs ...Message) 
 				// The response is trailed by the throttle time, also skipping
 				// since it's not interesting here.
 				return discardInt32(r, size)
-			}))
+			})
+			// When the broker reported an error the rest of the response
+			// (throttle time) has not been read yet; it must be skipped since
+			// the connection is kept open after kafka errors.
+			return expectZeroSize(discardOnKafkaError(&c.rbuf, size, err))
 		},
 	)
 
@@ -1301,6 +1309,22 @@ func (c *Conn) readResponse(size int, res interface{}) error {
 		}
 	}
 	return expectZeroSize(size, err)
+}
+
+// discardOnKafkaError skips the unread remainder of a response when reading it
+// stopped early on an error code reported by the broker. The connection is
+// kept open after such errors, so the next response must start right after
+// the current one. If the remainder cannot be skipped the I/O error is
+// returned instead, which causes the connection to be closed.
+func discardOnKafkaError(r *bufio.Reader, size int, err error) (int, error) {
+	var kafkaError Error
+	if size > 0 && errors.As(err, &kafkaError) {
+		if remain, discardErr := discardN(r, size, size); discardErr != nil {
+			return remain, discardErr
+		}
+		return 0, err
+	}
+	return size, err
 }
 
 func (c *Conn) peekResponseSizeAndID() (int32, int32, error) {
